@@ -87,9 +87,16 @@ def expand_spans(text, repo, spans_log):
     def paste(m):
         if m.group(1) not in spans:
             raise KaniSetupError("paste of undefined span %s" % m.group(1))
-        return spans[m.group(1)]
+        body = spans[m.group(1)]
+        for frm, to in re.findall(r"s/([^/]+)/([^/]*)/", m.group(2) or ""):
+            if frm not in body:
+                raise KaniSetupError("paste %s: substitution source `%s` not found" % (m.group(1), frm))
+            cnt = body.count(frm)
+            body = body.replace(frm, to)
+            spans_log.append({"name": m.group(1), "substitution": {"from": frm, "to": to, "count": cnt}})
+        return body
 
-    return re.sub(r"/\*@@paste\s+(\w+)\s*\*/", paste, text)
+    return re.sub(r"/\*@@paste\s+(\w+)((?:\s+s/[^/]+/[^/]*/)*)\s*\*/", paste, text)
 
 
 def prepare(repo, harness_files, scratch_parent=None, for_tests=False):
